@@ -32,19 +32,27 @@
 (*   tagdel      scheme/ocidir/tag.go:tagDelete     (TdRead, TdWrite)      *)
 (*   mdel/mdelr  scheme/ocidir/manifest.go:ManifestDelete (MdGet, MdRead,  *)
 (*               MdWrite, MdFile)                                          *)
-(*   head        ManifestHead: readIndex under the mutex, os.Stat outside  *)
+(*   head        ManifestHead: readIndex and os.Stat under the mutex       *)
 (*               (HRead, HStat)                                            *)
 (*   get         ManifestGet: one critical section (GRead, GFile)          *)
 (*   list        ocidir/tag.go:TagList: one readIndex                      *)
 (* conf.init names the initial content (InitIdx; the same names and the    *)
 (* same entries as the table `inits` of harness/cmd/c06drv), including     *)
 (* indexes written by other tools.                                         *)
-(* conf.fixed = FALSE models tagDelete / indexSet as they are at HEAD      *)
-(* (forward range with slices.Delete - TDLoopHead -, exact match on        *)
-(* ref.name); TRUE models the repaired code: findings/C06-1.patch (every   *)
-(* entry that names the tag, also through a full image name), C06-3.patch  *)
-(* (reg.ManifestDelete clears the cache entry again after the DELETE) and  *)
-(* C06-4.patch (ocidir.ManifestHead keeps the mutex over index and stat).  *)
+(* The spec describes the code as it is now, i.e. with the three repairs   *)
+(* that came out of this check (findings/C06-1..4.md).  conf.old names the *)
+(* repairs taken back, so that the earlier behaviour stays available as a  *)
+(* switch (it explains the seeds seeded/fixrev-C06-*, and the cfgs         *)
+(* C06_mc_old_*.cfg must keep producing their counterexamples):            *)
+(*   "layout"  before bf19c36: tagDelete = forward range with slices.Delete*)
+(*             (TDLoopOld: the entry after a removed one is skipped) and   *)
+(*             tagDelete / indexSet match ref.name exactly; now every      *)
+(*             entry naming the tag goes / is replaced, also one naming it *)
+(*             through a full image name (refNameMatch)                    *)
+(*   "cache"   before acae968: reg.ManifestDelete clears the cache entry   *)
+(*             only before the DELETE; now once more after the 202         *)
+(*   "head"    before 9cfa5d9: ocidir.ManifestHead stats the file outside  *)
+(*             the mutex; now the mutex is held over index read and stat   *)
 (*                                                                         *)
 (* Deliberate deviations: blob uploads of the fall-back and reghttp        *)
 (* retries are not modelled; placeholder digests are fresh values (the     *)
@@ -139,29 +147,31 @@ IndexGet(idx, t) ==
 IndexTags(idx) == {idx[i].t : i \in {j \in 1..Len(idx) : idx[j].k \in {"tag", "full"}}}
 
 \* ocidir.go:indexSet - replace the first matching entry, prune later matches, else append
-SetMatch(e, t, d, fixed) ==
+\* (exact: the matching before bf19c36, without refNameMatch)
+SetMatch(e, t, d, exact) ==
   \/ e.k = "none" /\ e.d = d
-  \/ t # "" /\ e.t = t /\ (e.k = "tag" \/ (fixed /\ e.k = "full"))
-IndexSet(idx, t, d, fixed) ==
+  \/ t # "" /\ e.t = t /\ (e.k = "tag" \/ (~exact /\ e.k = "full"))
+IndexSet(idx, t, d, exact) ==
   LET new == IF t = "" THEN E("none", "", d) ELSE E("tag", t, d)
-      hits == {i \in 1..Len(idx) : SetMatch(idx[i], t, d, fixed)} IN
+      hits == {i \in 1..Len(idx) : SetMatch(idx[i], t, d, exact)} IN
   IF hits = {} THEN Append(idx, new)
   ELSE LET pos == CHOOSE i \in hits : \A j \in hits : i <= j
            keep == SelectSeq([i \in 1..Len(idx) |-> [e |-> idx[i], i |-> i]],
-                             LAMBDA x : x.i <= pos \/ ~SetMatch(x.e, t, d, fixed)) IN
+                             LAMBDA x : x.i <= pos \/ ~SetMatch(x.e, t, d, exact)) IN
        [i \in 1..Len(keep) |-> IF keep[i].i = pos THEN new ELSE keep[i].e]
 
-\* ocidir/tag.go:tagDelete at HEAD: `for i, desc := range index.Manifests` evaluates the slice
+\* ocidir/tag.go:tagDelete: slices.DeleteFunc over every entry that names the tag.  Before bf19c36
+\* (old): `for i, desc := range index.Manifests` evaluates the slice
 \* once (n0 iterations over the shared backing array) while slices.Delete shifts the tail left
 \* and zeroes the vacated element: the element that follows a removed one is never looked at
-RECURSIVE TDLoopHead(_, _, _, _)
-TDLoopHead(s, i, n0, t) ==
+RECURSIVE TDLoopOld(_, _, _, _)
+TDLoopOld(s, i, n0, t) ==
   IF i > n0 THEN s
-  ELSE IF i <= Len(s) /\ s[i].k = "tag" /\ s[i].t = t THEN TDLoopHead(RemoveAt(s, i), i + 1, n0, t)
-       ELSE TDLoopHead(s, i + 1, n0, t)
-TagDelIdx(idx, t, fixed) ==
-  IF fixed THEN SelectSeq(idx, LAMBDA e : ~(e.k \in {"tag", "full"} /\ e.t = t))
-  ELSE TDLoopHead(idx, 1, Len(idx), t)
+  ELSE IF i <= Len(s) /\ s[i].k = "tag" /\ s[i].t = t THEN TDLoopOld(RemoveAt(s, i), i + 1, n0, t)
+       ELSE TDLoopOld(s, i + 1, n0, t)
+TagDelIdx(idx, t, old) ==
+  IF old THEN TDLoopOld(idx, 1, Len(idx), t)
+  ELSE SelectSeq(idx, LAMBDA e : ~(e.k \in {"tag", "full"} /\ e.t = t))
 
 ----------------------------------------------------------------------------
 (* observers in flight see every change: a paged listing accumulates the tag sets the server  *)
@@ -297,7 +307,7 @@ RegStep(p) ==
             THEN /\ SrvDelMan(ph) /\ UNCHANGED <<nph, viol>> /\ NoLin /\ Return(p)
                  \* a get of the tag served in the window has cached the placeholder (harmless: nobody
                  \* asks for that digest); the repaired ManifestDelete drops it
-                 /\ cache' = IF conf.fixed THEN cache \ {ph} ELSE cache
+                 /\ cache' = IF "cache" \in conf.old THEN cache ELSE cache \ {ph}
                  /\ loc' = Locs(p, IdleLoc, rtags', atags, amans, aamb)
             ELSE /\ RegUnch /\ NoLin /\ Return(p) /\ UNCHANGED cache
                  /\ loc' = [loc EXCEPT ![p] = IdleLoc]
@@ -312,8 +322,8 @@ RegStep(p) ==
        [] pc[p] = "DEL" ->
             IF o.m \in rmans
             THEN /\ SrvDelMan(o.m) /\ UNCHANGED <<nph, viol>>
-                 \* findings/C06-3.patch: cacheMan.Delete once more after the 202
-                 /\ cache' = IF conf.fixed THEN cache \ {o.m} ELSE cache
+                 \* cacheMan.Delete once more after the 202 (acae968)
+                 /\ cache' = IF "cache" \in conf.old THEN cache ELSE cache \ {o.m}
                  /\ Lin(o) /\ Return(p)
                  /\ loc' = Locs(p, IdleLoc, rtags', atags', amans', aamb')
             ELSE /\ Return(p) /\ RegUnch /\ NoLin /\ UNCHANGED <<cache, loc>>
@@ -367,8 +377,9 @@ LayStep(p) ==
             \* lock, initIndex (creates the marker when missing), manifest file written (tmp + rename)
             /\ Free(p) /\ Lock(p)
             /\ files' = files \cup {o.m} /\ marker' = TRUE /\ UNCHANGED index
-            \* the manifest can be read by digest from now on (os.Stat / open need no mutex); the
-            \* tag follows at PUTWRITE.  No index read can fall in between: the mutex is held.
+            \* the manifest is on disk from now on, the tag follows at PUTWRITE; no index read can
+            \* fall in between (the mutex is held), only the os.Stat of a ManifestHead of the time
+            \* before 9cfa5d9 ("head" \in conf.old) can see the file early
             /\ amans' = amans \cup {o.m} /\ UNCHANGED <<atags, aamb>>
             /\ Park(p, "PUTREAD") /\ UNCHANGED viol
             /\ loc' = Locs(p, loc[p], rtags, atags, amans', aamb)
@@ -378,7 +389,7 @@ LayStep(p) ==
             /\ loc' = [loc EXCEPT ![p] = [@ EXCEPT !.lidx = IF ReadOK THEN index ELSE <<>>]]
        [] pc[p] = "PUTWRITE" ->
             /\ Free(p) /\ Unlock
-            /\ index' = IndexSet(loc[p].lidx, o.t, o.m, conf.fixed) /\ marker' = TRUE /\ UNCHANGED files
+            /\ index' = IndexSet(loc[p].lidx, o.t, o.m, "layout" \in conf.old) /\ marker' = TRUE /\ UNCHANGED files
             /\ Lin(o) /\ Return(p) /\ UNCHANGED viol
             /\ loc' = Locs(p, IdleLoc, rtags, atags', amans', aamb')
        [] pc[p] = "TDREAD" ->
@@ -390,7 +401,7 @@ LayStep(p) ==
                     /\ loc' = [loc EXCEPT ![p] = IdleLoc]
                     /\ viol' = Flag(Unjust(o), "refused-tagdel")
        [] pc[p] = "TDWRITE" ->
-            LET nidx == TagDelIdx(loc[p].lidx, o.t, conf.fixed) IN
+            LET nidx == TagDelIdx(loc[p].lidx, o.t, "layout" \in conf.old) IN
             /\ Free(p) /\ Unlock /\ Return(p) /\ UNCHANGED files
             /\ IF Len(nidx) = Len(loc[p].lidx)
                THEN \* no entry matched: not found
@@ -425,7 +436,7 @@ LayStep(p) ==
                     /\ loc' = [loc EXCEPT ![p] = IdleLoc]
                     /\ viol' = Flag(Unjust(o), "refused-" \o o.k)
        [] pc[p] = "HREAD" ->
-            \* readIndex takes the mutex for the read only
+            \* the mutex is taken for index read and stat (before 9cfa5d9: for the read only)
             LET d == IF ~ReadOK THEN NONE
                      ELSE IF o.t # "" THEN IndexGet(index, o.t) ELSE o.m IN
             /\ UseMutex => mu = NONE
@@ -434,14 +445,14 @@ LayStep(p) ==
                THEN /\ Return(p) /\ loc' = [loc EXCEPT ![p] = IdleLoc] /\ UNCHANGED mu
                     /\ viol' = Flag(NONE \notin loc[p].seen, "read-differs")
                ELSE /\ Park(p, "HSTAT") /\ UNCHANGED viol
-                    \* findings/C06-4.patch: the mutex is kept until the file has been checked
-                    /\ IF conf.fixed THEN Lock(p) ELSE UNCHANGED mu
+                    \* the mutex is kept until the file has been checked (9cfa5d9)
+                    /\ IF "head" \in conf.old THEN UNCHANGED mu ELSE Lock(p)
                     /\ loc' = [loc EXCEPT ![p] = [@ EXCEPT !.d = d]]
        [] pc[p] = "HSTAT" ->
-            \* os.Stat outside the mutex
+            \* os.Stat (before 9cfa5d9 outside the mutex)
             LET d == IF loc[p].d \in files THEN loc[p].d ELSE NONE IN
             /\ NoLin /\ UNCHANGED <<index, files, marker, viol>> /\ Return(p)
-            /\ IF conf.fixed THEN Unlock ELSE UNCHANGED mu
+            /\ IF "head" \in conf.old THEN UNCHANGED mu ELSE Unlock
             /\ loc' = [loc EXCEPT ![p] = IdleLoc]   \* the answer d is judged by invariant HeadStable
        [] pc[p] = "GREAD" ->
             LET d == IF ~ReadOK THEN NONE
@@ -504,11 +515,10 @@ LayoutGlue == (conf.backend = "layout" /\ (\A p \in Procs : pc[p] \notin
 \* is one the reference model gave at some moment since the read was called
 Pending(p) == IF loc[p].d \in files THEN loc[p].d ELSE NONE
 GetStable == \A p \in Procs : pc[p] = "GFILE" => Pending(p) \in loc[p].seen
-\* ManifestHead resolves under the mutex but stats the file outside of it: with three goroutines
-\* (head t ; push t m2 ; mdel m1, t -> m1 before) "not found" is reported for a tag that was
-\* present throughout.  Expected counterexample (C06_mc_headrace.cfg); cannot be imposed on the
-\* real code from outside (no gate inside ManifestHead), so it is recorded as a design-level
-\* observation only.
+\* With "head" \in conf.old (ManifestHead stats the file outside the mutex) three goroutines
+\* (head t ; push t m2 ; mdel m1, t -> m1 before) make it report "not found" for a tag that was
+\* present throughout: counterexample of C06_mc_old_head.cfg, seen on the real code of that time
+\* about once in 4000 ungated rounds (finding C06-4).  The repaired code satisfies it.
 HeadStable == \A p \in Procs : pc[p] = "HSTAT" => Pending(p) \in loc[p].seen
 WellFormed == MWellFormed(atags, amans)
 =============================================================================
